@@ -62,9 +62,10 @@ def run_operator_case(case, prop, configs, weakly, want, nq=8, cinf_bounds=(5, 5
     via = 'parser' if rng.random() < 0.5 else 'api'
     style = rng.choice(['full', 'min'])
     parallel = rng.random() < 0.06       # the definition does not depend on how the batch is evaluated
+    reuse_objects = rng.random() < 0.08
     keys = None
     if rng.random() < 0.25:      # bases whose keys are not 1..n (e.g. after deleting a conditional)
-        keys = sorted(rng.sample(range(0, 2 * len(conds) + 3), len(conds)))
+        keys = sorted(rng.sample(range(-2, 2 * len(conds) + 3), len(conds)))
         if rng.random() < 0.3:
             rng.shuffle(keys)
     res = {'evals': 0, 'nontrivial': [], 'violations': [], 'inconclusive': [], 'counters': {}}
@@ -106,12 +107,14 @@ def run_operator_case(case, prop, configs, weakly, want, nq=8, cinf_bounds=(5, 5
     try:
         with impl.debug_logging(debug):
             return _run_configs(rng, res, bump, configs, weakly, mode, sig, conds, keys, via, style, parallel, qs, qtt,
+                                    reuse_objects,
                                 setup, csys, base, bdesc, ref_by_sys, extra, fam, prop)
     finally:
         guard.uninstall()
 
 
 def _run_configs(rng, res, bump, configs, weakly, mode, sig, conds, keys, via, style, parallel, qs, qtt,
+                 reuse_objects,
                  setup, csys, base, bdesc, ref_by_sys, extra, fam, prop):
     for (system, p) in configs:
         cname = impl.cfg_name(system, p)
@@ -120,6 +123,19 @@ def _run_configs(rng, res, bump, configs, weakly, mode, sig, conds, keys, via, s
         refs = ref_by_sys[system]
         bb = impl.mk_bb(sig, conds, keys=keys, via=via, style=style)
         queries = impl.mk_queries(qs)
+        if reuse_objects:
+            # the query OBJECTS have a past: they are the rules of another base that was already checked for
+            # consistency and asked a query (answers depend on the formulas, not on where the objects have been)
+            try:
+                from inference.consistency_sat import consistency as _cons
+                other = impl.mk_bb(sig, qs, via='api')
+                _cons(other, 'z3', True)
+                impl.ask(other, system, p, impl.mk_queries(qs[:1]), weakly=True)
+            except BaseException as e_:  # noqa  (the other base may be unacceptable: irrelevant here)
+                if type(e_).__name__ in ('SoftTimeout', 'Stall'):
+                    raise
+            from inference.queries import Queries as _Q
+            queries = _Q(dict(other.conditionals))
         got = None
         try:
             df = impl.ask(bb, system, p, queries, weakly=weakly, **({'multi_inference': True} if parallel else {}))
